@@ -397,6 +397,23 @@ class C04(Check):
             res["digest"] = log.digest()
             return res
         res["cov"].add(f"{kind}|clean|-|true")
+        if kind in HRNPK and "ops" not in case or case.get("pclass") == "modify":
+            # HRNP documents that its checksum is computed from the data assembled at serialisation time: a parsed packet whose fields were
+            # assigned afterwards (what an application forwarding packets does) must serialise with a checksum that verifies
+            from okdmr.dmrlib.hytera.pdu.hrnp import HRNP
+
+            r2 = random.Random(case.get("pseed", 1))
+            q0 = HRNP.from_bytes(wire.tobytes())
+            for attr, bits in (("source", 8), ("destination", 8), ("packet_number", 16), ("block_number", 8)):
+                if r2.random() < 0.6:
+                    setattr(q0, attr, r2.getrandbits(bits))
+            again = HRNP.from_bytes(q0.as_bytes())
+            res["evals"] += 1
+            if not again.checksum_correct or not ones_complement_valid(q0.as_bytes()):
+                fail("C04.clean-indicator-false", kind + ":modified-after-parse", f"{kind}: packet {wire.tobytes().hex()} parsed, fields re-assigned, serialised as "
+                     f"{q0.as_bytes().hex()}: parses back with checksum_correct={again.checksum_correct} (reference sum valid: {ones_complement_valid(q0.as_bytes())})",
+                     dict(sub0, ops=[[0]], pclass="modify", pseed=case.get("pseed", 1)), {"kind": kind})
+            res["cov"].add(f"{kind}|modified-after-parse")
         bf = canon(base)
         if "ops" in case:
             pats = [(case.get("pclass", "replay"), tuple(p)) for p in case["ops"] if p]
